@@ -9,7 +9,7 @@ PID = "C11"
 RULE = ("non-mutating operations (| & - ^ ~, `in` for points / curves / shapes incl. Connected-in-Simple, ==, float, "
         "IntegrateShape.polynomial, deepcopy) on operands of all kinds: the operation is run once to count its N internal "
         "calls into the package, then re-run from a fresh state with a BaseException raised inside the k-th call, for k "
-        "evenly spread over 1..N (quick: <= 40 per case; thorough: <= 400); afterwards every operand must denote exactly "
+        "evenly spread over 1..N (quick: <= 40 per case; thorough: <= 400) plus the first call of every distinct internal function; cheap queries (point / float / in / ==) on cold unbounded or holed operands with EVERY internal call as a crash point; afterwards every operand must denote exactly "
         "the region it denoted before (same kind, same curves up to inserted collinear vertices, same orientation) and "
         "answer area / containment / float(curve) as before; plus the invalid-argument matrix of move/scale/rotate x all "
         "kinds; non-trivial = the crash index is neither the first nor the last call; distinct = SHA-1")
@@ -33,6 +33,11 @@ def cases(ctx):
         if env is None:
             continue
         yield {"a": env[0], "b": env[1], "op": OPS[i % len(OPS)]}
+    # cheap queries on cold objects with clockwise curves (unbounded shapes, holes): EVERY internal call is a crash point
+    for i in range(ctx.n(8, 120)):
+        env = OC.gen_env(rng, 2, R=rng.choice([5, 8]), kinds=("U", "C", "U", "D"))
+        if env is not None:
+            yield {"a": env[0], "b": env[1], "op": ["pt", "jfloat", "in", "=="][i % 4], "all_points": True}
     kinds = [G.simple_shape(rng, R=6, bounded=True), G.holed_shape(rng, R=8), G.disjoint_shape(rng, R=6)]
     bads = [("move", ("1", "2")), ("move", (None, 1)), ("move", ([1], 2)), ("scale", (2, "3")), ("scale", ("2", 3)),
             ("scale", (None, 1)), ("scale", (2, [1])), ("scale", ("a", 1)), ("rot", ("1",)), ("rot", (None,)), ("rot", ([1],)),
@@ -62,6 +67,10 @@ def _op(case, A, B):
         return lambda: (copy.deepcopy(A), copy.copy(B))
     if op == "not":
         return lambda: (~A, -B)
+    if op == "pt":
+        return lambda: ((F(1, 2), F(1, 3)) in A, B.contains_point((3, -2), False))
+    if op == "jfloat":
+        return lambda: ([float(j) for j in getattr(A, "jordans", ())], float(B))
     raise ValueError(op)
 
 
@@ -88,7 +97,7 @@ def check(ctx, case):
     a, b, op = case["a"], case["b"], case["op"]
     ctx.count("op:" + op)
     A, B = I.mk_shape(a), I.mk_shape(b)
-    base = I.outcome(lambda: CR.count_calls(_op(case, A, B)))
+    base = I.outcome(lambda: CR.count_calls(_op(case, A, B), names=True))
     if base[0] != "ok":
         # the operation itself raises: the operands must be intact all the same
         A, B = I.mk_shape(a), I.mk_shape(b)
@@ -100,11 +109,16 @@ def check(ctx, case):
             if not H.resplit_of(I.shape_data(I.mk_shape(d)), I.shape_data(X)):
                 fails.append(Fail(kind="O", what="operation raised and left its %s operand changed" % name, impl=base))
         return fails
-    N = base[1]
+    N, names = base[1]
     ctx.count("calls", N)
     budget = ctx.n(24, 400)
-    ks = sorted(set([1, 2, N - 1, N] + [1 + (N - 1) * i // budget for i in range(budget + 1)]))
+    # crash points: evenly spread over the run, plus the first / middle / last call of EVERY distinct internal function
+    ks = sorted(set([1, 2, N - 1, N] + [1 + (N - 1) * i // budget for i in range(budget + 1)] + CR.site_points(names, 1)))
+    if case.get("all_points") and N <= ctx.n(400, 3000):
+        ks = list(range(1, N + 1))
     ks = [k for k in ks if 1 <= k <= N]
+    ctx.count("crash points", len(ks))
+    ctx.count("distinct internal functions", len(set(names)))
     ref = {"a": I.shape_data(I.mk_shape(a)), "b": I.shape_data(I.mk_shape(b))}
     ans = {"a": _answers(I.mk_shape(a)), "b": _answers(I.mk_shape(b))}
     for k in ks:
